@@ -512,6 +512,9 @@ def obligations(tier, build):
                                   leverage="choice feasibility only (copy/pickle are C boundaries, elements concrete)",
                                   stubs=[]))
     import props._owners as owners_
+    obs.append(Obligation("detached/set", owners_.detached_harness("set"), bounds={"how the container lost its place": owners_.DETACH_HOWS,
+                                                                                      "operations": "3 valid, 2 refused by the built-in"},
+                          leverage="choice feasibility only"))
     obs.append(Obligation("sharing/set", owners_.sharing_harness("set"),
                           bounds={"ways of handing a value on": owners_.SHARING_HOWS, "declarations": "x and y from ONE shared definition object"},
                           leverage="choice feasibility only", stubs=[]))
